@@ -322,4 +322,71 @@ def inputOK (t : Tree) : Bool :=
 def navOK (t : Tree) : Bool :=
   allNodes (fun lv info file => (!file.isSome || decide (lv < endSections)) && (!info.foot || decide (endSections ≤ lv))) t
 
+/-! ### navigation entries registered while parsing (`Macro.setLinkType`, `userdata['links']`)
+
+`SectionUtils.links` copies `userdata['links']` into the navigation dictionary (`nav[key] = value`); the
+layouts print `links.index.url`.  The entry is registered by `invoke`: `Macro.invoke` (commands, and `\begin`
+of macros) and `Environment.invoke` call `self.setLinkType()` after parsing the arguments; the instance created
+for `\end{…}` only pops the context and returns *before* that. -/
+
+/-- instances of macros the parser invokes, in source order; `pos` = which construct of the document -/
+inductive Inst where
+  | cmd (key : String) (pos : Nat)         -- a command such as `\printindex` (`key = ""`: `linkType` is `None`)
+  | envBegin (key : String) (pos : Nat)    -- `\begin{theindex}`: this instance becomes the node of the document
+  | envEnd (key : String) (pos : Nat)      -- `\end{theindex}`: a throw-away instance, never part of the document
+  deriving DecidableEq, Repr
+
+/-- a value of `userdata['links']`: which construct registered it, and whether the registered object is a node
+    of the document tree (only those are rendered and have a meaningful URL) -/
+structure NavEntry where
+  key : String
+  pos : Nat
+  inTree : Bool
+  deriving DecidableEq, Repr
+
+/-- `setLinkType`: `if key: userdata['links'][key] = self` (dictionary assignment: replaces) -/
+def setLinkType (links : List NavEntry) (e : NavEntry) : List NavEntry :=
+  if e.key = "" then links else e :: links.filter (fun x => x.key ≠ e.key)
+
+/-- `invoke` of one instance -/
+def invokeInst (links : List NavEntry) : Inst → List NavEntry
+  | .cmd k p => setLinkType links ⟨k, p, true⟩
+  | .envBegin k p => setLinkType links ⟨k, p, true⟩
+  | .envEnd _ _ => links        -- `if self.macroMode == MODE_END: context.pop(self); return`
+
+def parseNav (h : List Inst) : List NavEntry := h.foldl invokeInst []
+
+/-! ### `up` link and breadcrumbs of `SectionUtils.links` -/
+
+/-- the level the harness writes for the `document` node; stands for `Node.DOCUMENT_LEVEL = -sys.maxsize` -/
+def documentLevel : Int := -1000000
+
+/-- `parent = self.parentNode` when `self.level > DOCUMENT_LEVEL`; `nav['up'] = nav['parent'] = parent` -/
+def upOf (t : Tree) (anc : List Tree) : Option Url :=
+  if t.level > documentLevel then
+    match anc with
+    | [] => none
+    | a :: rest => some (url a rest)
+  else none
+
+/-- `while item is not None and item.level > DOCUMENT_LEVEL: breadcrumbs.append(item); item = item.parentNode`
+    followed by `if item is not None: breadcrumbs.append(item)` (URLs of the collected ancestors, nearest first) -/
+def crumbsUp : List Tree → List Url
+  | [] => []
+  | a :: rest => if a.level > documentLevel then url a rest :: crumbsUp rest else [url a rest]
+
+/-- `breadcrumbs = [self]`, the ancestors when `self.level > DOCUMENT_LEVEL`, then `breadcrumbs.reverse()` -/
+def breadcrumbs (t : Tree) (anc : List Tree) : List Url :=
+  (url t anc :: (if t.level > documentLevel then crumbsUp anc else [])).reverse
+
+/- every node (pre-order) with its chain of ancestors -/
+mutual
+def nodesA (anc : List Tree) : Tree → List (Tree × List Tree)
+  | .node lv id info file kids =>
+    (.node lv id info file kids, anc) :: nodesAList (.node lv id info file kids :: anc) kids
+def nodesAList (anc : List Tree) : List Tree → List (Tree × List Tree)
+  | [] => []
+  | t :: ts => nodesA anc t ++ nodesAList anc ts
+end
+
 end PlasVerif.Model.Urls
